@@ -18,6 +18,7 @@ import MakoModel.ModFile.Drv
 import MakoModel.PyExpr.Drv
 import MakoModel.Control.Drv
 import MakoModel.Codegen.Attrs.Drv
+import MakoModel.ErrPos.Drv
 /-! Dispatch table of the driver: one line per model area (`op prefix`, handler). -/
 namespace Driver
 open MakoModel
@@ -42,6 +43,7 @@ def table : List (String × Wire.Handler) :=
   , ("py", PyExpr.Drv.handle)
   , ("ctl", Control.Drv.handle)
   , ("c05", Codegen.Attrs.Drv.handle)
+  , ("errpos", ErrPos.Drv.handle)
   ]
 
 end Driver
